@@ -198,13 +198,21 @@ template <typename K> struct OrdGreater {
     static const char* name() { return "greater"; }
 };
 //! stateful comparator: orders by a permutation table it carries
-static std::vector<int> g_table;
+static std::vector<int> g_table, g_table2;   // two different states of the stateful comparator
 template <typename K> struct OrdTable {
     const std::vector<int>* tab;
     OrdTable() : tab(&g_table) {}
+    explicit OrdTable(const std::vector<int>* t) : tab(t) {}
     int rank(int id) const { return (size_t)id < tab->size() ? (*tab)[id] : id; }
     bool operator()(const K& a, const K& b) const { return rank(KeyMaker<K>::id(a)) < rank(KeyMaker<K>::id(b)); }
     static const char* name() { return "table"; }
+};
+
+//! a comparator object for a fresh container: stateful orders get one of two states, so that the two
+//! live containers of a history may disagree and assignment / swap have to carry the state along
+template <typename C> struct CmpFactory { static C make(verif::Rng&) { return C(); } };
+template <typename K> struct CmpFactory<OrdTable<K> > {
+    static OrdTable<K> make(verif::Rng& rng) { return OrdTable<K>(rng.coin() ? &g_table : &g_table2); }
 };
 
 template <size_t BinThr>
@@ -432,7 +440,7 @@ struct Driver {
 
     void build_fresh(int w) {
         int arena = next_arena++;
-        Cmp cmp;
+        Cmp cmp = CmpFactory<Cmp>::make(rng);
         c[w].t.reset(new T(cmp, verif::ArenaAlloc<V>(arena)));
         c[w].m.reset(new M(cmp));
     }
@@ -751,6 +759,8 @@ struct Driver {
         g_table.resize(5100);
         for (size_t i = 0; i < g_table.size(); ++i) g_table[i] = (int)i;
         std::shuffle(g_table.begin(), g_table.begin() + 5003, rng);
+        g_table2 = g_table;
+        std::reverse(g_table2.begin(), g_table2.begin() + 5003);
         try {
             build_fresh(0); build_fresh(1);
             for (size_t i = 0; i < nops; ++i) {
